@@ -316,13 +316,32 @@ impl QVisitor for PathV<'_> {
                     o.push(n);
                     o.extend(body);
                 } else {
-                    let mut v = pq.view_mut(w);
-                    for h in self.handles {
-                        match v.get_mut(*h) {
-                            None => o.push(0),
-                            Some(i) => {
-                                o.push(1);
-                                i.enc(&mut o);
+                    let mut per_handle: Vec<Vec<u64>> = Vec::new();
+                    {
+                        let mut v = pq.view_mut(w);
+                        for h in self.handles {
+                            let mut a = Vec::new();
+                            match v.get_mut(*h) {
+                                None => a.push(0),
+                                Some(i) => {
+                                    a.push(1);
+                                    i.enc(&mut a);
+                                }
+                            }
+                            o.extend(a.iter());
+                            per_handle.push(a);
+                        }
+                    }
+                    // what the prepared view hands out must be what a direct lookup hands out
+                    for (k, h) in self.handles.iter().enumerate() {
+                        if per_handle[k][0] == 1 {
+                            let mut b = vec![1];
+                            match w.query_one_mut::<Q>(*h) {
+                                Ok(i) => i.enc(&mut b),
+                                Err(_) => b[0] = 0,
+                            }
+                            if b != per_handle[k] {
+                                self.flags.push(format!("C08/C17: PreparedView::get_mut({:?}) = {:?} but query_one_mut gives {:?}", h, per_handle[k], b));
                             }
                         }
                     }
